@@ -300,6 +300,11 @@ namespace hgraph
             single_nested_graph_node_descriptor(std::move(meta), std::move(spec), options));
     }
 
+    namespace
+    {
+        void bind_output_impl(const SingleNestedGraphNodeView &nested, DateTime evaluation_time, bool sampled);
+    }
+
     void single_nested_graph_start(const NodeView &view, DateTime evaluation_time)
     {
         auto nested = checked_nested_view(view);
@@ -342,14 +347,14 @@ namespace hgraph
         // when the endpoint already references the same output, so this is cheap when
         // the wiring is stable (and idempotent on a pause/resume re-entry).
         single_nested_graph_bind_inputs(nested, evaluation_time);
-        single_nested_graph_bind_output(nested, evaluation_time);
+        bind_output_impl(nested, evaluation_time, true);
         const bool completed = nested.child_graph().evaluate(evaluation_time);
         // The child's evaluation can itself re-point a reference-shaped output
         // (an if_then_else / switch_ inside the child publishing a new
         // reference). Resolve the forwarding again so this cycle's consumers
         // read the target selected in this cycle, not the previous one; the
         // helper is a no-op when the resolved target is unchanged.
-        if (completed) { single_nested_graph_bind_output(nested, evaluation_time); }
+        if (completed) { bind_output_impl(nested, evaluation_time, true); }
         return completed;
     }
 
@@ -376,6 +381,16 @@ namespace hgraph
     void single_nested_graph_bind_output(const SingleNestedGraphNodeView &nested,
                                          DateTime evaluation_time)
     {
+        bind_output_impl(nested, evaluation_time, false);
+    }
+
+    namespace
+    {
+    // ``sampled``: a re-point made while the graph is evaluating is a sampled
+    // rebind for the consumers of this node's output (structural outputs
+    // reconcile old-only / new-only keys, and only a live target ticks).
+    void bind_output_impl(const SingleNestedGraphNodeView &nested, DateTime evaluation_time, bool sampled)
+    {
         const auto &binding = nested.context().spec.output_binding;
         if (!binding.has_value()) { return; }
 
@@ -391,11 +406,11 @@ namespace hgraph
             if (!source.bound())
             {
                 static_cast<void>(clear_forwarding_output_tree(
-                    std::move(target)));
+                    std::move(target), sampled));
                 return;
             }
             static_cast<void>(bind_forwarding_output_tree_to_source(
-                std::move(target), source));
+                std::move(target), source, sampled));
             return;
         }
 
@@ -403,8 +418,9 @@ namespace hgraph
             nested.child_graph().node_at(binding->source.node).output(evaluation_time),
             binding->source.path);
         static_cast<void>(bind_forwarding_output_tree_to_source(
-            std::move(target), source));
+            std::move(target), source, sampled));
     }
+    }  // namespace
 
     void single_nested_graph_clear_output_binding(const SingleNestedGraphNodeView &nested,
                                                   DateTime evaluation_time)
